@@ -165,3 +165,17 @@ def fmt(x):
 def vtok(v):
     """canonical var tuple (fam, i1, ..) -> wire tokens 'fam k i1..ik'"""
     return [v[0], len(v) - 1] + list(v[1:])
+
+
+def infeasible_without_presolve(wrapper):
+    """Independent re-solve of the model a SolverWrapper holds (HiGHS), with presolve OFF.  Returns the status string.
+    Used to tell a model that really is infeasible from a wrong 'kInfeasible' answer of the solver's presolve
+    (observed with HiGHS 1.15.1: a feasible MILP reported infeasible by presolve) -- the latter is a failure of
+    the solver specification the whole development assumes, not of flowpaths."""
+    import highspy
+    src = wrapper.solver
+    h = highspy.Highs()
+    h.setOptionValue("output_flag", False); h.setOptionValue("presolve", "off"); h.setOptionValue("threads", 1)
+    h.passModel(src.getModel())
+    h.run()
+    return h.modelStatusToString(h.getModelStatus())
